@@ -54,6 +54,15 @@ def cases(tier):
                     a = {n: DIMS[n][0] for n in DIMS}
                     a.update(method=meth, M=M, grid=g, rhs=rhs, **ex)
                     add(a, ["method", "M", "grid", "rhs"] + list(ex))
+    # DAE models under DirectCollocation: sampler / refined samples of the algebraic variable
+    for dg in (1, 2, 3, 4):
+        for sc in ("radau", "legendre"):
+            for M in (1, 2, 3):
+                for N in (1, 2):
+                    for g in ("uniform", "geom"):
+                        dd = P.case(method="DC", degree=dg, scheme=sc, M=M, N=N, grid=g, alg=True, rhs="nl_t", state="vec2")
+                        dd["cons"] = []; dd["obj"] = ["mayer_tf", "integral", "int_z"]
+                        out.append(dict(kind="dae", d=dd, dev=["dae", "degree", "scheme", "M", "N", "grid"]))
     # histories: the horizon is changed after a first transcription in which refined samples were already taken
     for meth, ex in schemes:
         for M in (1, 2):
@@ -154,9 +163,75 @@ def run_hist(case):
     return dict(violations=vios, evaluations=8, traces=2, transitions=4, outcome=explore.sha([_trans.compact(d), [v["sig"] for v in vios]]), nontrivial=True, sample=dict(d=_trans.compact(d), hist=True))
 
 
+def run_dae(case):
+    """DAE under DirectCollocation: the sampler and the refined samples of an expression with the algebraic variable
+    use, inside every integrator step, the polynomial of degree d-1 through the step's collocation values of z"""
+    import casadi as ca, sys
+    d = case["d"]
+    tags = _trans.tags_of(d) + ["dae"]
+    vios = []
+    N, M, deg = d["N"], d["M"], d["degree"]
+    evals = 0
+    try:
+        r = P.declare(d)
+        st, s = r.st, r.sym
+        z = s["z"]; x0 = ca.vec(s["x"])[0]
+        nlp = NL.Nlp(r.ocp)
+        w = NL.generic(nlp.nx, 0, core.get_seed() if hasattr(core, "get_seed") else 0, lo=0.2, hi=1.2)
+
+        def ev(*exprs):
+            F = ca.Function("f", [nlp.x, nlp.p], list(exprs))
+            o = F(w, nlp.p0)
+            o = o if isinstance(o, (list, tuple)) else [o]
+            return [np.array(e).reshape(-1) for e in o]
+        ti, tr_, zr = ev(st.sample(st.t, grid="integrator")[1], st.sample(st.t, grid="integrator_roots")[1], st.sample(z, grid="integrator_roots")[1])
+        col = RT.colloc(deg, d["scheme"])
+
+        def zpoly(i, frac):
+            zz = zr[i * deg:(i + 1) * deg]
+            val = 0.0
+            for j in range(deg):
+                lj = 1.0
+                for q_ in range(deg):
+                    if q_ != j:
+                        lj *= (frac - col["tau"][q_]) / (col["tau"][j] - col["tau"][q_])
+                val += zz[j] * lj
+            return val
+        smp = st.sampler(ca.vertcat(z, z * x0))
+        xs_smp = st.sampler(x0)
+        gist = np.concatenate([w, nlp.p0])
+        for i in range(N * M):
+            for frac in (0.0, 0.5, 1 / math.sqrt(2 + i), 0.9):
+                tq = ti[i] + frac * (ti[i + 1] - ti[i])
+                got = np.array(smp(gist, float(tq))).reshape(-1)
+                xv = float(np.array(xs_smp(gist, float(tq))).reshape(-1)[0])
+                want = np.array([zpoly(i, frac), zpoly(i, frac) * xv])
+                evals += 1
+                if not NL.close(got, want, 1e-7):
+                    vios.append(dict(sig="value:sampler:algebraic", tags=tags, detail="sampler of [z, z*x] at t=%g (integrator step %d of %d) gives %s, the polynomial through the step's collocation values of z gives %s" % (tq, i, N * M, np.round(got, 6), np.round(want, 6)))); break
+            if vios: break
+        for rr in (2, 3):
+            tf, zf = ev(*st.sample(z, grid="integrator", refine=rr))
+            for i in range(N * M):
+                for j in range(rr):
+                    evals += 1
+                    if not NL.close(zf[i * rr + j], zpoly(i, j / rr), 1e-7):
+                        vios.append(dict(sig="value:refine:algebraic", tags=tags + ["refine=%d" % rr], detail="refined sample %d of z in integrator step %d is %g, the polynomial through the step's collocation values gives %g" % (j, i, zf[i * rr + j], zpoly(i, j / rr)))); break
+                if vios: break
+            if vios: break
+    except Exception as e:
+        fr = core.rockit_frame(sys.exc_info()[2])
+        if fr is None and not isinstance(e, (RuntimeError, AssertionError)):
+            raise
+        vios.append(dict(sig="exception:dae:%s" % (fr or type(e).__name__), tags=tags, detail="%s: %s" % (type(e).__name__, str(e)[:200])))
+    return dict(violations=vios, evaluations=max(evals, 1), traces=1, transitions=3, outcome=explore.sha([_trans.compact(d), [v["sig"] for v in vios]]), nontrivial=True, sample=dict(d=_trans.compact(d), dae=True))
+
+
 def run_case(case):
     if case.get("kind") == "hist":
         return run_hist(case)
+    if case.get("kind") == "dae":
+        return run_dae(case)
     import casadi as ca, sys
     d = case["d"]
     tags = _trans.tags_of(d) + ["rhs=%s" % d["rhs"]]
@@ -289,6 +364,21 @@ def run_case(case):
                 evals += 1
                 if not NL.close(got, want, 1e-7):
                     vios.append(dict(sig="value:sampler", tags=tags, detail="sampler at t=%g gives %s, the polynomial of integrator step %d gives %s" % (tq, np.round(got, 6), i, np.round(want, 6)))); break
+            # a second sampler: the control of the interval that contains the query time, time itself, their product with
+            # the state polynomial (query times strictly inside integrator steps: no ambiguity at the nodes)
+            if d["control"] != "none":
+                u0 = ca.vec(s["u"])[0]
+                smp2 = st.sampler(ca.vertcat(u0, st.t, u0 * x[0] + st.t))
+                Uq = np.array(ca.Function("u", [nlp.x, nlp.p], [st.sample(u0, grid="control-")[1]])(w, nlp.p0)).reshape(-1)
+                for i in range(N * M):
+                    for frac in (0.5, 1 / math.sqrt(2 + i)):
+                        tq = ti[i] + frac * (ti[i + 1] - ti[i])
+                        got = np.array(smp2(gist, float(tq))).reshape(-1)
+                        want = np.array([Uq[i // M], tq, Uq[i // M] * polys[i][0](frac) + tq])
+                        evals += 1
+                        if not NL.close(got, want, 1e-7):
+                            vios.append(dict(sig="value:sampler:control", tags=tags, detail="sampler of [u, t, u*x+t] at t=%g (integrator step %d, control interval %d) gives %s, expected %s" % (tq, i, i // M, np.round(got, 6), np.round(want, 6)))); break
+                    if vios: break
             # vector of query times and a second expression (time itself and a product with the control)
             got = np.array(smp(gist, np.array(ti[:3] if len(ti) >= 3 else ti)))
             if got.shape[0] != len(ti[:3]):
@@ -315,6 +405,6 @@ def convergence_cases():
 
 def describe(tier):
     return dict(
-        rule="deviation-bounded enumeration over method/intg/degree(1..5)/scheme/N/M/grid/rhs/state/horizon/per-interval parameter plus every scheme x M x grid x {nonlinear time-dependent, degree-1, degree-2, degree-d solution} table; at two dynamically feasible decision vectors (min-norm Newton on the real equality rows): thinning (refine r -> integrator -> control, times and values, r=1..7), equal subdivision of every step, the 8 values of refine=7 on one polynomial of the scheme's degree incl. the step's end state, other refinements on the same polynomial, initial slope = rhs (explicit schemes) / through the helper states with slope = rhs at every collocation time (collocation), exactness on polynomial solutions, sampler(gist,t) = that polynomial on a lattice of query times (grid times, midpoints, irrational offsets, both ends); histories (refined samples and sampler taken, set_T / set_t0, taken again) = fresh Ocp",
+        rule="deviation-bounded enumeration over method/intg/degree(1..5)/scheme/N/M/grid/rhs/state/horizon/per-interval parameter plus every scheme x M x grid x {nonlinear time-dependent, degree-1, degree-2, degree-d solution} table; at two dynamically feasible decision vectors (min-norm Newton on the real equality rows): thinning (refine r -> integrator -> control, times and values, r=1..7), equal subdivision of every step, the 8 values of refine=7 on one polynomial of the scheme's degree incl. the step's end state, other refinements on the same polynomial, initial slope = rhs (explicit schemes) / through the helper states with slope = rhs at every collocation time (collocation), exactness on polynomial solutions, sampler(gist,t) = that polynomial on a lattice of query times (grid times, midpoints, irrational offsets, both ends); sampler of [u, t, u*x+t] = the containing interval's control, the query time and their combination with the state polynomial; DAE x degree 1..4 x scheme x M x N x grid under DirectCollocation: sampler and refined samples of z and z*x = the degree d-1 polynomial through the step's collocation values of z; histories (refined samples and sampler taken, set_T / set_t0, taken again) = fresh Ocp",
         bound="k<=%d deviations + scheme table" % (3 if tier == "thorough" else 2),
         assumptions=["feasible points are found by Newton on the real rows (non-converged points are skipped and counted)", "rhs values come from the reference interpreter"])
